@@ -285,26 +285,33 @@ func run(c *core.Ctx) {
 	// (a) generators
 	gens := c02gen.Cases(th)
 	c.Bound("generator_cases", len(gens))
-	var mine []c02gen.Case
-	for _, g := range gens {
-		if !c.Next() {
+	// Generator cases are dealt to the shards in runs of 64 consecutive cases, so that neighbouring
+	// parameterisations of one generator (rows 8 and 9 at the same column count, n and n+1 sides) are
+	// served by the same process; then each shard serves its cases again in descending order — once
+	// with the same runs and once with the runs shifted by 32 — so that every generator is also asked
+	// after the process has served the later (mostly larger) parameterisations: whatever a generator
+	// keeps between calls (a cache, a pooled buffer, a lazily built table) was then filled by
+	// another request.
+	c.Bound("generator_case_passes", "runs of 64 consecutive cases per shard: ascending; descending; descending with the runs shifted by 32")
+	for i, g := range gens {
+		if !c.Mine(i / 64) {
 			continue
 		}
 		if c.Expired() {
 			return
 		}
 		k.gen(g)
-		mine = append(mine, g)
 	}
-	// the same cases once more in the opposite order: every generator is also asked after the process
-	// has served the later (mostly larger) parameterisations — whatever a generator keeps between calls
-	// (a cache, a pooled buffer, a lazily built table) was then filled by another request
-	c.Bound("generator_cases_second_pass", "each shard's generator cases again in descending order, in the same process")
-	for i := len(mine) - 1; i >= 0; i-- {
-		if c.Expired() {
-			return
+	for _, shift := range []int{0, 32} {
+		for i := len(gens) - 1; i >= 0; i-- {
+			if !c.Mine((i + shift) / 64) {
+				continue
+			}
+			if c.Expired() {
+				return
+			}
+			k.gen(gens[i])
 		}
-		k.gen(mine[i])
 	}
 
 	// (b) every operation × every variant × S_mesh
